@@ -775,7 +775,7 @@ func TestC17_BurnToFeeCollector(t *testing.T) {
 // that the differential oracle cannot pass vacuously: who ends up with the delegation / vote.
 func TestC17_PinnedAttribution(t *testing.T) {
 	r := rec.For("TestC17_PinnedAttribution", "pinned: EOA, proxy, delegatecall-proxy, emitter and double-call script against absolute expectations")
-	c := kit.NewChain("teleport_9000-1", kit.ChainOpts{Seed: []byte("c17"), NumValidators: 2, NumAccounts: 8, GenesisMutator: mutateGenesis})
+	c := kit.NewChain("teleport_9000-1", kit.ChainOpts{Seed: []byte("c17"), NumValidators: 2, NumAccounts: 8, GenesisMutator: mutateGenesis, BalanceCoins: 1_000_000})
 	w := &world{r: r, c: c, triples: map[string]bool{}}
 	w.whale, w.proposer, w.deployer, w.treasury = c.Accounts[0], c.Accounts[3], c.Accounts[4], c.Accounts[7]
 	eoa := c.Accounts[1]
